@@ -98,13 +98,26 @@ func TomlKeyToEvCode(key string, lookupTable map[string]evdev.EvCode) (evdev.EvC
 
 }
 
-func ParseData(data []byte) (Config, error) {
-	cfg := TOMLDeviceConfig{}
+// decodeStrict decodes data into v, rejecting unknown fields. The decoder panics (in reflect.Set) instead of
+// returning an error for some well-formed values of the wrong kind, e.g. a date where a number is expected;
+// a bad file must never take the application down, so such a panic is reported as a decoding error.
+func decodeStrict(data []byte, v interface{}) (err error) {
+	defer func() {
+		if r := recover(); r != nil {
+			err = fmt.Errorf("decoder failed: %v", r)
+		}
+	}()
 
 	d := toml.NewDecoder(bytes.NewReader(data))
 	d.DisallowUnknownFields()
 
-	err := d.Decode(&cfg)
+	return d.Decode(v)
+}
+
+func ParseData(data []byte) (Config, error) {
+	cfg := TOMLDeviceConfig{}
+
+	err := decodeStrict(data, &cfg)
 	if err != nil {
 		return Config{}, fmt.Errorf("parsing failed: %w", err)
 	}
